@@ -6,7 +6,7 @@ import random
 import e2e
 from core import Family, q, unq, run_model, run_impl, cmp_tree
 
-GEN_FILES = ["StateSpaceGlue.v", "IndexersGen.v", "FilterMask.v"]
+GEN_FILES = ["StateSpaceGlue.v", "IndexersGen.v", "FilterMask.v", "ChoiceAxes.v"]
 RUNNERS = ["fmask_runner"]
 TRUSTED = e2e.TRUSTED + [
     "Model/StateSpace.v (boolean-mask selection in row-major order; any/cumulative ranks/fill value; repeat) is hand-written: tied by family indexers_and_segments",
